@@ -132,7 +132,7 @@ def setter_sync(repo, res):
         res.require(prop in c.setters, f"anchor vanished: BaseMagnet.{prop} setter")
         fn = c.setters[prop]
         stores = [n for n in ast.walk(fn) if isinstance(n, ast.Assign) and any(
-            isinstance(t, ast.Attribute) and t.attr == other for t in n.targets) and not (isinstance(n.value, ast.Constant) and n.value.value is None)]
+            isinstance(t, ast.Attribute) and t.attr in (other, other[1:]) for t in n.targets) and not (isinstance(n.value, ast.Constant) and n.value.value is None)]
         res.require(stores, f"BaseMagnet.{prop} setter no longer assigns {other}")
         for st in stores:
             arepo = ARepo(common.REPO)
